@@ -1273,6 +1273,8 @@ pub fn gen_pristine(r: &mut Rng, profile: Profile, root: &str, cycle: bool) -> G
             } else {
                 format!("f{}.inc", i)
             };
+            // rarely a file is literally called like the fake path of string sources
+            let base = if r.chance(1, 30) { "no file".to_string() } else { base };
             let name = if r.chance(1, 6) { format!("sub/{}", base) } else { base };
             LogicalFile {
                 name,
